@@ -23,7 +23,9 @@ argument name with `-x`. For example, `--foo` may also be written as `--x-foo`.
 class ScriptExitError(RuntimeError):
     def __init__(self, path, code):
         super().__init__('{} failed with exit status {}'.format(path, code))
-        self.code = code
+        # Exit statuses are taken modulo 256; make sure that a failure (e.g.
+        # `exit(256)`) can't look like success to whoever ran us.
+        self.code = 1 if isinstance(code, int) and code % 256 == 0 else code
 
 
 def is_srcdir(path):
